@@ -2,7 +2,7 @@
    the three spellings) and index steps [digits] returns exactly the value reached by following the names and
    indexes through the nested objects and arrays (with that location in accessor mode), and nothing when a
    name or index is missing on the way. *)
-From JP Require Import Peg Grammar Slice Text Tree Actions Json Eval WF Spec EvalInv1 EvalInv4 EvalTop EndToEnd Codec KeyDefs KeyParse IdxParse ChainParse.
+From JP Require Import Peg Grammar Slice Text Tree Actions Json Eval WF Spec EvalInv1 EvalInv4 EvalTop EndToEnd Codec KeyDefs KeyParse IdxParse WildParse ChainParse.
 From Coq Require Import Lia.
 Open Scope list_scope.
 
@@ -18,6 +18,41 @@ Fixpoint nav_chain (v : value) (steps : list kstep) : option value :=
   | s :: r => match nav v s with Some x => nav_chain x r | None => None end
   end.
 Definition step_loc (s : kstep) : pstep := match s with SIdx ds => PIdx (step_idx ds) | _ => PKey (step_key s) end.
+
+(* the values one step reaches from a value at a location: a name or an index reaches at most one, a wildcard all the
+   members of an object in ascending key order, or all the elements of an array in index order *)
+Definition nav1 (s : kstep) (lv : list pstep * value) : list (list pstep * value) :=
+  match s with
+  | SWild _ => match snd lv with
+               | VObj m => flat_map (fun k => match lookup m k with Some x => [(fst lv ++ [PKey k], x)] | None => [] end) (sorted_keys m)
+               | VArr xs => map (fun iv => (fst lv ++ [PIdx (fst iv)], snd iv)) (index_list xs 0)
+               | _ => []
+               end
+  | _ => match nav (snd lv) s with Some x => [(fst lv ++ [step_loc s], x)] | None => [] end
+  end.
+Fixpoint nav_all (steps : list kstep) (lv : list pstep * value) : list (list pstep * value) :=
+  match steps with [] => [lv] | s :: r => flat_map (nav_all r) (nav1 s lv) end.
+
+Lemma flat_map_flat_map {A B C} (f : B -> list C) (g : A -> list B) l :
+  flat_map f (flat_map g l) = flat_map (fun x => flat_map f (g x)) l.
+Proof. induction l as [|a l IH]; cbn [flat_map]; [reflexivity|]. rewrite flat_map_app, IH. reflexivity. Qed.
+Lemma flat_map_map' {A B C} (f : B -> list C) (g : A -> B) l : flat_map f (map g l) = flat_map (fun x => f (g x)) l.
+Proof. induction l as [|a l IH]; cbn [flat_map map]; [reflexivity|]. rewrite IH. reflexivity. Qed.
+Lemma flat_map_ext' {A B} (f g : A -> list B) l : (forall a, f a = g a) -> flat_map f l = flat_map g l.
+Proof. intros H. induction l as [|a l IH]; cbn [flat_map]; [reflexivity|]. rewrite H, IH. reflexivity. Qed.
+Lemma flat_map_single {A B} (f : A -> B) l : flat_map (fun x => [f x]) l = map f l.
+Proof. induction l as [|a l IH]; cbn [flat_map map app]; [reflexivity|]. rewrite IH. reflexivity. Qed.
+
+(* without wildcards a chain reaches at most one value: the one nav_chain finds *)
+Lemma nav_all_single : forall steps (p : list pstep) v, existsb (fun s => match s with SWild _ => true | _ => false end) steps = false ->
+  nav_all steps (p, v) = match nav_chain v steps with Some x => [(p ++ map step_loc steps, x)] | None => [] end.
+Proof.
+  induction steps as [|s r IH]; intros p v Hw; cbn [nav_all nav_chain map].
+  - rewrite app_nil_r. reflexivity.
+  - cbn [existsb] in Hw. apply orb_false_iff in Hw. destruct Hw as [H1 H2].
+    assert (E : nav1 s (p, v) = match nav v s with Some x => [(p ++ [step_loc s], x)] | None => [] end) by (destruct s; try reflexivity; discriminate H1).
+    rewrite E. destruct (nav v s) as [x|]; [|reflexivity]. cbn [flat_map]. rewrite app_nil_r, IH by exact H2. rewrite <- app_assoc. reflexivity.
+Qed.
 
 Lemma digits_val_nonneg ds : forall acc z, (0 <= acc)%Z -> digits_val ds acc = Some z -> (0 <= z)%Z.
 Proof.
@@ -55,91 +90,106 @@ Section ChainAddr.
   Notation eval_run := (eval_run ffun afun regex_match).
   Notation sp := (sp ffun afun regex_match).
 
-  Fixpoint last_basic (s : kstep) (r : list kstep) : basic :=
-    match r with [] => fin_basic cfg s [] | x :: r' => last_basic x r' end.
-  Lemma last_basic_acc s r : accessor (last_basic s r) = cfg_accessor cfg.
-  Proof. revert s. induction r as [|x r IH]; intros s; [reflexivity|apply IH]. Qed.
+  (* the basic of the last node of a chain whose first node carries b *)
+  Fixpoint last_basic (b : basic) (r : list kstep) : basic :=
+    match r with [] => b | x :: r' => last_basic (fin_basic cfg (step_vg x) x r') r' end.
+  Lemma last_basic_acc b r : accessor b = cfg_accessor cfg -> accessor (last_basic b r) = cfg_accessor cfg.
+  Proof. revert b. induction r as [|x r IH]; intros b Hb; [exact Hb|apply IH; reflexivity]. Qed.
 
-  (* the specification of one step of the chain: navigate, then go on *)
-  Lemma sp_step s b next root p v : step_ok s = true ->
-    sp (Node (step_kind s) b next) root (Some p, v) =
-    match nav v s with
-    | Some x => match next with
-                | OSome nx => sp nx root (Some (p ++ [step_loc s]), x)
-                | ONone => [(b, true, (Some (p ++ [step_loc s]), x))]
-                end
-    | None => []
+  Definition fwd (b : basic) (next : onode) (root : value) (lv : list pstep * value) : list sres :=
+    match next with
+    | OSome nx => sp nx root (Some (fst lv), snd lv)
+    | ONone => [(b, true, (Some (fst lv), snd lv))]
     end.
+
+  (* the specification of one step of the chain: navigate, then go on from every value reached *)
+  Lemma sp_step s b next root p v : step_ok s = true ->
+    sp (Node (step_kind s) b next) root (Some p, v) = flat_map (fwd b next root) (nav1 s (p, v)).
   Proof.
-    intros Hs. destruct s as [q k|k|ds].
-    - cbn [step_kind nav step_loc]. cbn [Spec.sp snd fst]. destruct v; reflexivity.
-    - cbn [step_kind nav step_loc]. cbn [Spec.sp snd fst]. destruct v; reflexivity.
+    intros Hs. destruct s as [q k|k|ds|d].
+    - cbn [step_kind nav1 nav step_loc fst snd]. cbn [Spec.sp snd fst]. destruct v; try reflexivity.
+      destruct (lookup m (step_key (SBr q k))); [|reflexivity]. cbn [flat_map fwd fst snd ext_loc]. rewrite app_nil_r. destruct next; reflexivity.
+    - cbn [step_kind nav1 nav step_loc fst snd]. cbn [Spec.sp snd fst]. destruct v; try reflexivity.
+      destruct (lookup m (step_key (SDot k))); [|reflexivity]. cbn [flat_map fwd fst snd ext_loc]. rewrite app_nil_r. destruct next; reflexivity.
     - destruct ds as [|d ds]; [discriminate Hs|]. cbn [step_ok] in Hs. apply andb_true_iff in Hs. destruct Hs as [Hd _].
       pose proof (step_idx_nonneg (d :: ds) Hd) as Hz. set (z := step_idx (d :: ds)) in *.
-      cbn [step_kind nav step_loc]. fold z. cbn [Spec.sp snd fst]. destruct v; try reflexivity.
+      cbn [step_kind nav1 nav step_loc fst snd]. fold z. cbn [Spec.sp snd fst]. destruct v; try reflexivity.
       cbn [flat_map get_indexes]. unfold get_indexes_index.
       cbv zeta. assert (E0 : (z <? 0)%Z = false) by (apply Z.ltb_ge; exact Hz). rewrite !E0. cbn [orb].
       destruct (z >=? Z.of_nat (List.length l))%Z eqn:Eg.
       + rewrite nth_value_out by (apply Z.geb_le in Eg; lia). reflexivity.
-      + cbn [flat_map]. rewrite !app_nil_r. destruct (nth_value l z); [|reflexivity]. cbn [fst snd ext_loc]. destruct next; reflexivity.
+      + cbn [flat_map]. rewrite !app_nil_r. destruct (nth_value l z); [|reflexivity]. cbn [flat_map fwd fst snd ext_loc]. rewrite app_nil_r. destruct next; reflexivity.
+    - cbn [step_kind nav1 fst snd]. cbn [Spec.sp snd fst]. destruct v; try reflexivity.
+      + rewrite flat_map_map'. apply flat_map_ext'. intros [i x]. cbn [fst snd fwd ext_loc]. destruct next; reflexivity.
+      + rewrite flat_map_flat_map. apply flat_map_ext'. intros key. destruct (lookup m key); [|reflexivity].
+        cbn [flat_map fwd fst snd ext_loc]. rewrite app_nil_r. destruct next; reflexivity.
   Qed.
 
-  Lemma sp_chain : forall r s root p v, forallb step_ok (s :: r) = true ->
-    sp (chain_node cfg s r) root (Some p, v) =
-    match nav_chain v (s :: r) with
-    | Some x => [(last_basic s r, true, (Some (p ++ map step_loc (s :: r)), x))]
-    | None => []
-    end.
+  Lemma sp_chain : forall r s b root p v, forallb step_ok (s :: r) = true ->
+    sp (Node (step_kind s) b (chain1 cfg r)) root (Some p, v) =
+    map (fun lv => (last_basic b r, true, (Some (fst lv), snd lv))) (nav_all (s :: r) (p, v)).
   Proof.
-    induction r as [|x r IH]; intros s root p v Hs; cbn [forallb] in Hs; apply andb_true_iff in Hs; destruct Hs as [H1 H2].
-    - unfold chain_node. cbn [chain1]. rewrite sp_step by exact H1. cbn [nav_chain map last_basic].
-      destruct (nav v s); reflexivity.
-    - unfold chain_node. cbn [chain1]. rewrite sp_step by exact H1. cbn [nav_chain last_basic].
-      destruct (nav v s) as [y|]; [|reflexivity].
-      change (Node (step_kind x) (fin_basic cfg x r) (chain1 cfg r)) with (chain_node cfg x r).
-      rewrite IH by exact H2. cbn [map]. rewrite <- app_assoc. reflexivity.
+    induction r as [|x r IH]; intros s b root p v Hs; cbn [forallb] in Hs; apply andb_true_iff in Hs; destruct Hs as [H1 H2].
+    - cbn [chain1]. rewrite sp_step by exact H1. cbn [nav_all last_basic fwd].
+      rewrite <- flat_map_single. rewrite flat_map_flat_map. apply flat_map_ext'. intros a. reflexivity.
+    - cbn [chain1]. rewrite sp_step by exact H1. cbn [nav_all last_basic fwd].
+      rewrite <- flat_map_single, flat_map_flat_map. apply flat_map_ext'. intros [l y]. unfold fwd. cbn [fst snd].
+      rewrite IH by exact H2. rewrite <- flat_map_single. reflexivity.
   Qed.
 
-  Definition chain_result (steps : list kstep) (v : value) : res :=
-    if cfg_accessor cfg then RAcc true (Some (map step_loc steps)) v else RVal v.
+  Definition loc_result (lv : list pstep * value) : res :=
+    if cfg_accessor cfg then RAcc true (Some (fst lv)) (snd lv) else RVal (snd lv).
 
   Lemma spec_chain s r doc : forallb step_ok (s :: r) = true ->
-    spec_results ffun afun regex_match (chain_node cfg s r) doc =
-    match nav_chain doc (s :: r) with
-    | Some x => [chain_result (s :: r) x]
-    | None => []
-    end.
+    spec_results ffun afun regex_match (chain_node cfg s r) doc = map loc_result (nav_all (s :: r) ([], doc)).
   Proof.
-    intros Hs. unfold spec_results. rewrite sp_chain by exact Hs. cbn [app]. destruct (nav_chain doc (s :: r)) as [x|]; [|reflexivity].
-    cbn [map wrap]. rewrite last_basic_acc. unfold chain_result. cbn [fst snd]. destruct (cfg_accessor cfg); reflexivity.
+    intros Hs. unfold spec_results, chain_node. rewrite sp_chain by exact Hs. rewrite map_map. apply map_ext. intros [l x].
+    cbn [wrap fst snd]. rewrite last_basic_acc by reflexivity. unfold loc_result. cbn [fst snd]. destruct (cfg_accessor cfg); reflexivity.
   Qed.
 
-  (* every node of the document is addressable by the path that spells its location *)
-  Theorem chain_addressable s r doc v st : forallb step_ok (s :: r) = true -> small doc -> ok st ->
+  (* a path of name, index and wildcard steps returns exactly the values its steps reach, in order, with their
+     locations in accessor mode; it fails exactly when they reach nothing *)
+  Theorem chain_retrieval s r doc st : forallb step_ok (s :: r) = true -> small doc -> ok st ->
+    exists t, parse (chain_path (s :: r)) = ParseOk t /\
+              match nav_all (s :: r) ([], doc) with
+              | [] => exists e, fst (eval_run t doc st) = OErr e
+              | l => fst (eval_run t doc st) = OOk (map loc_result l)
+              end.
+  Proof.
+    intros Hs Hd Hok. exists (chain_node cfg s r).
+    pose proof (parse_chain_path cfg parse_float regex_ok s r Hs) as Hp. split; [exact Hp|].
+    pose proof (retrieve_end_to_end cfg parse_float regex_ok ffun afun regex_match ffun_small afun_small (chain_path (s :: r)) doc st Hd Hok) as H.
+    rewrite Hp in H. rewrite (spec_chain s r doc Hs) in H.
+    destruct (nav_all (s :: r) ([], doc)) as [|a l] eqn:En.
+    - destruct (fst (eval_run (chain_node cfg s r) doc st)) as [rs|e|pn].
+      + destruct H as [H1 [H2 _]]. contradiction (H2 H1).
+      + exists e. reflexivity.
+      + contradiction.
+    - destruct (fst (eval_run (chain_node cfg s r) doc st)) as [rs|e|pn].
+      + destruct H as [H _]. rewrite H. reflexivity.
+      + destruct H as [H _]. discriminate.
+      + contradiction.
+  Qed.
+
+  (* without wildcards: every node of the document is addressable by the path that spells its location *)
+  Definition chain_result (steps : list kstep) (v : value) : res :=
+    if cfg_accessor cfg then RAcc true (Some (map step_loc steps)) v else RVal v.
+  Definition no_wild (steps : list kstep) : bool := negb (existsb (fun s => match s with SWild _ => true | _ => false end) steps).
+
+  Theorem chain_addressable s r doc v st : forallb step_ok (s :: r) = true -> no_wild (s :: r) = true -> small doc -> ok st ->
     nav_chain doc (s :: r) = Some v ->
     exists t, parse (chain_path (s :: r)) = ParseOk t /\ fst (eval_run t doc st) = OOk [chain_result (s :: r) v].
   Proof.
-    intros Hs Hd Hok Hl. exists (chain_node cfg s r).
-    pose proof (parse_chain_path cfg parse_float regex_ok s r Hs) as Hp. split; [exact Hp|].
-    pose proof (retrieve_end_to_end cfg parse_float regex_ok ffun afun regex_match ffun_small afun_small (chain_path (s :: r)) doc st Hd Hok) as H.
-    rewrite Hp in H. rewrite (spec_chain s r doc Hs), Hl in H.
-    destruct (fst (eval_run (chain_node cfg s r) doc st)) as [rs|e|pn].
-    - destruct H as [H _]. rewrite H. reflexivity.
-    - destruct H as [H _]. discriminate.
-    - contradiction.
+    intros Hs Hw Hd Hok Hl. destruct (chain_retrieval s r doc st Hs Hd Hok) as (t & Hp & H). exists t. split; [exact Hp|].
+    unfold no_wild in Hw. apply negb_true_iff in Hw. pose proof (nav_all_single (s :: r) [] doc Hw) as E. rewrite E, Hl in H. exact H.
   Qed.
-  Theorem chain_absent s r doc st : forallb step_ok (s :: r) = true -> small doc -> ok st ->
+  Theorem chain_absent s r doc st : forallb step_ok (s :: r) = true -> no_wild (s :: r) = true -> small doc -> ok st ->
     nav_chain doc (s :: r) = None ->
     exists t e, parse (chain_path (s :: r)) = ParseOk t /\ fst (eval_run t doc st) = OErr e.
   Proof.
-    intros Hs Hd Hok Hl. exists (chain_node cfg s r).
-    pose proof (parse_chain_path cfg parse_float regex_ok s r Hs) as Hp.
-    pose proof (retrieve_end_to_end cfg parse_float regex_ok ffun afun regex_match ffun_small afun_small (chain_path (s :: r)) doc st Hd Hok) as H.
-    rewrite Hp in H. rewrite (spec_chain s r doc Hs), Hl in H.
-    destruct (fst (eval_run (chain_node cfg s r) doc st)) as [rs|e|pn].
-    - destruct H as [H1 [H2 _]]. contradiction (H2 H1).
-    - exists e. split; [exact Hp|reflexivity].
-    - contradiction.
+    intros Hs Hw Hd Hok Hl. destruct (chain_retrieval s r doc st Hs Hd Hok) as (t & Hp & H). exists t.
+    unfold no_wild in Hw. apply negb_true_iff in Hw. rewrite (nav_all_single (s :: r) [] doc Hw), Hl in H.
+    destruct H as [e He]. exists e. split; assumption.
   Qed.
 End ChainAddr.
 
